@@ -403,7 +403,10 @@ def r7_imports_delegated(ctx, sym):
     for hist in histories:
         answers = {}
 
-        def real_import(name, g=None, l=None, fromlist=(), level=0):
+        def real_import(*a, **k):
+            given = dict(zip(('name', 'globals', 'locals', 'fromlist', 'level'), a))
+            given.update(k)
+            name, fromlist = given['name'], given.get('fromlist') or ()
             key = (name, bool(fromlist))
             if key not in answers:
                 answers[key] = _Obj('module:%s%s' % (name if fromlist else name.split('.')[0],
